@@ -143,13 +143,32 @@ def run_case(run, drv, case_seed):
                           m["version"], damaged, outkind if kind == "create" else None],
                          damaged or True, sample=c, classes=[kind, "raised:" + str(raised)])
             # rename: free target, then occupied target
-            for occupied in (False, True):
+            for occupied in (False, True, rng.choice(["dir", "link-to-dir", "link-to-file"])):
                 src = os.path.join(outdir, "torename.torrent")
                 shutil.copy(m["path"], src)
-                newp = os.path.join(outdir, name + ".torrent")
-                if os.path.exists(newp) and not occupied:
+                rname = name
+                if rng.random() < 0.4:
+                    # release-style names: characters that mean something to glob / fnmatch / re
+                    rname = rng.choice(["[grp] show - 01 [1080p]", "a*b", "what?", "x[1]", "[a-z]", "{a,b}",
+                                        "^a$", "a+b", "(x)", "~", "%s", "{}"])
+                    with open(src, "wb") as fd:
+                        fd.write(refspec.encode(refspec.ref_metafile(rname, [((rname,), b"abc")], 16384, 1,
+                                                                     single=True)))
+                newp = os.path.join(outdir, rname + ".torrent")
+                if os.path.lexists(newp) and not occupied:
                     os.remove(newp)
-                if occupied:
+                if occupied in ("dir", "link-to-dir", "link-to-file"):
+                    # the target name is taken by something that is not a regular file
+                    aside = os.path.join(outdir, "aside-" + occupied)
+                    if occupied == "dir":
+                        write_tree(newp, [("keep", b"a directory in the way")])
+                    elif occupied == "link-to-dir":
+                        write_tree(aside, [("keep", b"behind a link")])
+                        os.symlink(aside, newp)
+                    else:
+                        write_tree(outdir, [("aside-file", b"behind a link")])
+                        os.symlink(os.path.join(outdir, "aside-file"), newp)
+                elif occupied:
                     with open(newp, "wb") as fd:
                         if rng.random() < 0.5:
                             fd.write(b"occupied - must survive")
@@ -179,13 +198,15 @@ def run_case(run, drv, case_seed):
                         run.fail("impl-vs-spec", c, {"why": "rename did not move exactly the file, "
                                                             "bytes unchanged", "changed": changed(before, after),
                                                      "raised": raised})
-                drv.ask(f"ops rename {hx(src.encode())} {hx(newp.encode())} 1 {1 if occupied else 0}",
+                drv.ask(f"ops rename {hx(src.encode())} {hx(newp.encode('utf8'))} 1 {1 if occupied else 0}",
                         ("rename", c, [(t[0],) + tuple(os.path.join(box, p) for p in t[1:])
                                        for t in mutating_tokens(tr.mutating(), box)]))
                 run.case(["rename", occupied, m["version"]], True, sample=c, classes=["rename"])
-                for p in (src, newp):
-                    if os.path.exists(p):
+                for p in (src, newp, os.path.join(outdir, "aside-file"), os.path.join(outdir, "aside-link-to-dir")):
+                    if os.path.islink(p) or os.path.isfile(p):
                         os.remove(p)
+                    elif os.path.isdir(p):
+                        shutil.rmtree(p)
             rename_torrent_payload(run, box, outdir, case)
         finally:
             os.chdir(old_cwd)
